@@ -2,6 +2,7 @@ from sa.selftest.harness import M, T
 
 X = "sharepoint2text/parsing/extractors/"
 D = X + "data_types.py"
+SH = "sharepoint2text/parsing/extractors/open_office/_shared.py"
 MUTANTS = [
     M("unit-without-get-tables", D, "    def get_tables(self) -> list[TableData]:\n        return []\n\n    def get_metadata(self) -> PptUnitMetadata:", "    def get_metadata(self) -> PptUnitMetadata:", "C04-IFACE"),
     M("caption-optional-returned", D, "    def get_caption(self) -> str:\n        return self.caption.strip()\n\n    def get_description(self) -> str:\n        return \"\"\n\n    def get_metadata(self) -> ImageMetadata:\n        return ImageMetadata(\n            image_number=self.image_number,", "    def get_caption(self) -> str:\n        return None\n\n    def get_description(self) -> str:\n        return \"\"\n\n    def get_metadata(self) -> ImageMetadata:\n        return ImageMetadata(\n            image_number=self.image_number,", "C04-STR"),
@@ -14,6 +15,7 @@ MUTANTS = [
     M("error-record-unnumbered", X + "open_office/odt_extractor.py", "                        error=str(e),\n                        image_index=image_counter,\n                    )\n                )\n\n    # Then, find simple images", "                        error=str(e),\n                    )\n                )\n\n    # Then, find simple images", "C04-NUMPOS"),
     M("populate-after-yield-path", X + "open_office/odg_extractor.py", "        metadata.populate_from_path(path)\n        yield OdgContent(", "        if images:\n            metadata.populate_from_path(path)\n        yield OdgContent(", "C04-META"),
     M("populate-none-guard-dropped", D, "        if path is None:\n            return\n        p = Path(path)", "        p = Path(path or \"\")", "C04-META"),
+    M("element-truth-test", SH, "    if creator is not None and creator.text:", "    if creator and creator.text:", "C04-TRUTH"),
 ]
 TWINS = [
     T("caption-or-empty", X + "open_office/odt_extractor.py", "        caption = title_elem.text if title_elem is not None and title_elem.text else \"\"\n        if not caption and name:", "        caption = (title_elem.text if title_elem is not None else None) or \"\"\n        if not caption and name:"),
@@ -30,5 +32,7 @@ SEEDED = [
     ("C04-4", "C04-STR"),
     ("C04-6", "C04-META"),
     ("C04-7", "C04-CHR"),
+    ("C04-8", "C04-TRUTH"),
+    ("C04-9", "C04-DIM"),
 ]
 MUTANTS = list(MUTANTS) + [_P("seed-" + sid, _os.path.join(_SEEDS, sid, "patch.diff"), rule) for sid, rule in SEEDED if _os.path.exists(_os.path.join(_SEEDS, sid, "patch.diff"))]
